@@ -33,7 +33,10 @@ RawForest(p, n) ==
     LET roots == RootsOf(p, n) IN
     [units |-> [j \in 1..Len(roots) |-> [kind |-> "cu", ver |-> 2 + ((j + n) % 4), root |-> roots[j], file |-> 0]],
      die |-> [d \in 1..n |->
-                [tag |-> IF p[d] = 0 THEN "cu" ELSE IF Len(KidsOf(p, n, d)) > 0 THEN "ns" ELSE "var",
+                \* (a tag says nothing about the position of a DIE: some nested DIEs carry the tag of a unit)
+                [tag |-> IF p[d] = 0 THEN "cu"
+                         ELSE IF (d + 2 * n) % 5 = 0 THEN (IF d % 2 = 0 THEN "pu" ELSE "cu")
+                         ELSE IF Len(KidsOf(p, n, d)) > 0 THEN "ns" ELSE "var",
                  kids |-> KidsOf(p, n, d),
                  attrs |-> Menu[1 + ((d + n) % Len(Menu))],
                  \* some leaves claim to have children although they have none (an empty child list), also
@@ -134,8 +137,16 @@ ChainG(n) == [d \in 2..n |-> [spec |-> IF d < n /\ d % 2 = 0 THEN d + 1 ELSE 0, 
 NavChainP(n) == [d \in 1..n |-> IF d % 2 = 1 THEN 0 ELSE d - 1]
 NavChainF(n) == [d \in {x \in 2..n : x % 2 = 0} |-> IF d < n THEN d + 1 ELSE 0]
 
+\* "navcu": the imported units are ordinary compile units (DWARF 4, 3.1.2: "the normal or partial compilation
+\* unit"): inlined where they are imported, and listed as units of their own as well
+NavCuForest(p, n, f) ==
+    LET F == NavForest(p, n, f) IN
+    [units |-> [j \in 1..Len(F.units) |-> [F.units[j] EXCEPT !.kind = "cu"]],
+     die |-> [d \in 1..n |-> IF F.die[d].tag = "pu" THEN [F.die[d] EXCEPT !.tag = "cu"] ELSE F.die[d]]]
+
 ForestSet ==
-    CASE Family = "navchain" -> {NavForest(NavChainP(N), N, NavChainF(N))}
+    CASE Family = "navcu" -> UNION {{NavCuForest(p, N, f) : f \in ImpChoices(p, N)} : p \in {q \in ParVecs(N) : Cardinality(RangeOf(RootsOf(q, N))) \in 2..3}}
+      [] Family = "navchain" -> {NavForest(NavChainP(N), N, NavChainF(N))}
       [] Family = "chain" -> {AttrForest(N, ChainG(N))}
       [] Family = "cyc" -> {AttrForest(N, g) : g \in CycRefChoices(N)}
       [] Family = "altnav" -> UNION {{AltNavForest(p, N, f) : f \in ImpChoices(p, N)} : p \in {q \in ParVecs(N) : Cardinality(RangeOf(RootsOf(q, N))) \in 2..3}}
